@@ -94,6 +94,10 @@ func faultCase(w *W, idx int, async bool) {
 	seed := w.Seed*86028121 + int64(idx)*104395301
 	rng := rand.New(rand.NewSource(seed))
 	variant := idx % 3 // 0 empty, 1 single block, 2 multi block
+	if idx%8 == 7 {
+		faultCaseBig(w, idx, async)
+		return
+	}
 	cfg := e1Cfg{Prop: "C14", Kinds: []Kind{KInt, KInt16, KFloat64, KBool, KString, KEnum, KRecord}, Pool: "edge", Txn: baseTxn(), Oracles: oracleSet(), NIdx: 1,
 		Caps: []int{64, 1000, 16385}}
 	cfg.Txn.MaxLive = 80
@@ -265,6 +269,116 @@ func faultCase(w *W, idx int, async bool) {
 		}
 		w.Sample(map[string]any{"collection": []string{"empty", "single-block", "multi-block"}[variant], "stream_bytes": L, "write_calls": K, "faults": len(specs), "first_faults": specs[:n], "writers_during_snapshot": withWriters, "async_s2": async})
 	}
+}
+
+// faultCaseBig: a collection whose encoded state spans several s2 blocks (> 1 MiB), so that an
+// early destination failure surfaces INSIDE a block callback of the state writer instead of at
+// the final flush. After every failed snapshot a row of every block is written under a watchdog.
+func faultCaseBig(w *W, idx int, async bool) {
+	caseID := fmt.Sprintf("E6:fault-big:%d", idx)
+	seed := w.Seed*86028121 + int64(idx)*104395301
+	rng := rand.New(rand.NewSource(seed))
+	g := newGen(seed+1, "edge")
+	c := column.NewCollection(column.Options{Capacity: 1000, Vacuum: 1 << 40})
+	defer c.Close()
+	c.CreateColumn("s", column.ForString())
+	c.CreateColumn("i64", column.ForInt64())
+	n := 40000 + rng.Intn(4000)
+	c.Query(func(txn *column.Txn) error {
+		for i := 0; i < n; i++ {
+			txn.Insert(func(r column.Row) error {
+				r.SetString("s", g.randBytes(40+rng.Intn(30)))
+				r.SetInt64("i64", int64(i))
+				return nil
+			})
+		}
+		return nil
+	})
+	fail := func(detail string, f faultSpec) {
+		w.Violate(idx, caseID, fmt.Sprintf("fault %s on a three-block collection with a multi-frame state (%d rows): %s", f, n, detail), "", map[string]any{"idx": idx, "fault": f, "async": async})
+	}
+	dry := &faultWriter{spec: faultSpec{Mode: "none"}}
+	if err := c.Snapshot(dry); err != nil {
+		fail("fault-free Snapshot failed: "+err.Error(), dry.spec)
+		return
+	}
+	L, K := dry.written, dry.calls
+	specs := []faultSpec{{"bytes", 0}, {"bytes", 10}, {"bytes", 4096}, {"bytes", 300000}, {"bytes", L / 2}, {"bytes", L - 1}, {"forever", 0}}
+	for k := 0; k <= K+1 && k < 12; k++ {
+		specs = append(specs, faultSpec{"call", k}, faultSpec{"once", k})
+	}
+	old := debug.SetGCPercent(-1)
+	defer debug.SetGCPercent(old)
+	runtime.GC()
+	fd0, tmp0 := countFDs(), countTemp()
+	expect := map[uint32]int64{}
+	for si, f := range specs {
+		fw := &faultWriter{spec: f}
+		err := c.Snapshot(fw)
+		w.Stat("faulted_snapshots", 1)
+		if fw.failed {
+			w.Stat("snapshots_where_destination_failed", 1)
+			if err == nil {
+				fail("the destination returned an error to a Write but Snapshot returned nil", f)
+				return
+			}
+		} else if err != nil {
+			fail("the destination never failed but Snapshot returned "+err.Error(), f)
+			return
+		}
+		// a transaction touching every block must still commit (under a watchdog: a leaked latch would block it forever)
+		done := make(chan struct{})
+		go func() {
+			defer close(done)
+			c.Query(func(txn *column.Txn) error {
+				for _, off := range []uint32{3, 16384 + 3, 32768 + 3} {
+					v := int64(si+1)*1000 + int64(off)
+					expect[off] = v
+					txn.QueryAt(off, func(r column.Row) error { r.SetInt64("i64", v); return nil })
+				}
+				return nil
+			})
+		}()
+		select {
+		case <-done:
+		case <-time.After(90 * time.Second):
+			fail("after the failed snapshot a transaction that writes one row in every block never commits (90 s)", f)
+			w.flush(false)
+			os.Exit(77)
+		}
+		w.Stat("post_fault_commits_checked", 1)
+	}
+	for off, v := range expect {
+		var got int64
+		c.QueryAt(off, func(r column.Row) error { got, _ = r.Int64("i64"); return nil })
+		if got != v {
+			fail(fmt.Sprintf("row %d reads %d after the post-fault transactions, expected %d", off, got, v), specs[len(specs)-1])
+			return
+		}
+	}
+	var good bytes.Buffer
+	if err := c.Snapshot(&good); err != nil {
+		fail("a later Snapshot to a healthy writer fails: "+err.Error(), specs[len(specs)-1])
+		return
+	}
+	r := column.NewCollection(column.Options{Capacity: 1000, Vacuum: 1 << 40})
+	defer r.Close()
+	r.CreateColumn("s", column.ForString())
+	r.CreateColumn("i64", column.ForInt64())
+	if err := r.Restore(bytes.NewReader(good.Bytes())); err != nil || r.Count() != c.Count() {
+		fail(fmt.Sprintf("the later healthy snapshot does not restore: err=%v count %d vs %d", err, r.Count(), c.Count()), specs[len(specs)-1])
+		return
+	}
+	w.Stat("followup_snapshots_restored", 1)
+	if fd1, tmp1 := countFDs(), countTemp(); fd1 > fd0 || tmp1 > tmp0 {
+		fail(fmt.Sprintf("descriptors %d -> %d, TMPDIR entries %d -> %d over %d snapshots (GC disabled)", fd0, fd1, tmp0, tmp1, len(specs)), specs[len(specs)-1])
+		return
+	}
+	w.Stat("leak_censuses", 1)
+	w.Stat("multi_frame_state_collections", 1)
+	w.Eval(hashOf("fault-big", idx, L, K), true)
+	w.StatMax("max_stream_bytes", int64(L))
+	w.StatMax("max_write_calls", int64(K))
 }
 
 func faultPlan(tier string) []Plan {
